@@ -25,6 +25,12 @@ static inline struct MetadataTuple mstack_back(const struct mstack *s) {
 #endif
   return s->item[s->n - 1]; }
 static inline void mstack_pop(struct mstack *s) { s->n--; }
+static inline size_t mstack_size(const struct mstack *s) { return (size_t)s->n; }
+static inline struct MetadataTuple mstack_at(const struct mstack *s, size_t i) {
+#ifdef VERIF_CBMC
+  __CPROVER_assert(i < (size_t)s->n, "std::vector::operator[] out of range");
+#endif
+  return s->item[i]; }
 
 #ifdef VERIF_CBMC
 static bool tok_pop(struct MDT *self, uint32_t *out) { if (self->pos >= self->ntok) return false; *out = self->tok[self->pos++]; if (self->remaining > 0) self->remaining--; return true; }
